@@ -26,6 +26,7 @@ func (r SatResult) String() string { return [...]string{"sat", "unsat", "unknown
 type Solver struct {
 	cmd     *exec.Cmd
 	in      io.WriteCloser
+	w       *bufio.Writer
 	out     *bufio.Reader
 	scopes  []map[int64]bool  // term ids defined per scope
 	vscopes []map[string]bool // declared vars per scope
@@ -68,7 +69,7 @@ func NewSolver(kind string, timeoutMs int, logPath string) (*Solver, error) {
 	if err := cmd.Start(); err != nil {
 		return nil, err
 	}
-	s := &Solver{cmd: cmd, in: in, out: bufio.NewReaderSize(outp, 1<<16), timeoutMs: timeoutMs}
+	s := &Solver{cmd: cmd, in: in, w: bufio.NewWriterSize(in, 1<<16), out: bufio.NewReaderSize(outp, 1<<16), timeoutMs: timeoutMs}
 	s.scopes = []map[int64]bool{{}}
 	s.vscopes = []map[string]bool{{}}
 	if logPath != "" {
@@ -110,11 +111,12 @@ func (s *Solver) send(line string) {
 	if s.keepTranscript && !strings.HasPrefix(line, "(check-sat") && !strings.HasPrefix(line, "(get-value") {
 		s.transcript = append(s.transcript, line)
 	}
-	io.WriteString(s.in, line)
-	io.WriteString(s.in, "\n")
+	s.w.WriteString(line)
+	s.w.WriteString("\n")
 }
 
 func (s *Solver) readLine() string {
+	s.w.Flush()
 	line, err := s.out.ReadString('\n')
 	if err != nil {
 		s.Errors = append(s.Errors, "solver pipe: "+err.Error())
